@@ -1,0 +1,21 @@
+//! Facade for the UPDATE -> route explosion (`roto_runtime::types`), which
+//! is `pub(crate)`. Wrappers only; no behaviour of their own.
+
+use routecore::bgp::message::UpdateMessage;
+use routecore::bgp::ParseError;
+
+use crate::payload::RotondaRoute;
+
+/// `roto_runtime::types::explode_announcements`, unchanged.
+pub fn explode_announcements(
+    bgp_update: &UpdateMessage<impl routecore::Octets>,
+) -> Result<Vec<RotondaRoute>, ParseError> {
+    crate::roto_runtime::types::explode_announcements(bgp_update)
+}
+
+/// `roto_runtime::types::explode_withdrawals`, unchanged.
+pub fn explode_withdrawals(
+    bgp_update: &UpdateMessage<impl routecore::Octets>,
+) -> Result<Vec<RotondaRoute>, ParseError> {
+    crate::roto_runtime::types::explode_withdrawals(bgp_update)
+}
